@@ -162,5 +162,8 @@ fixed("C08", "49b28d9", ["c08:e2e:%s:%s:%s" % (p, sc, k) for p in ("blocking", "
 fixed("C08", "46079e1", ["c08:framing-accepted:non-hex-chunk-size"] + ["c08:e2e:%s:chunk-size-non-hex:handler-ran-for-malformed-request" % p for p in ("nonblocking", "nonblocking-tls", "blocking", "blocking-tls", "mixed", "mixed-tls")],
       "chunk-size lines '5g', '5xyz', '0x5', '5=a': the size is cut at the first non-hex character and the rest of the line ignored - a non-hex chunk size is guessed as 5 / 0 (net/http rejects: invalid byte in chunk length)")
 
+fixed("C15", "0f8198b", ["c15:control-send:over-125-not-refused:write-frame"],
+      "Conn.WriteFrame(Ping|Pong|Close, ..., 126+ bytes) writes the oversized control frame (WriteMessage refuses it); control-send cases via WriteFrame")
+
 json.dump(F, open("/verif/known_findings.json", "w"), indent=1)
 print("wrote %d entries (%d known)" % (len(F), sum(1 for f in F if f["status"] == "known")))
